@@ -223,6 +223,8 @@ fn main() {
             rep.explanation = "syn::parse_str::<DfirCode> -> FlatGraphBuilder -> merge_modules -> eliminate_extra_unions_tees -> partition_graph -> as_code (dfir_lang as a library, no rustc); oracle computed from the public DfirGraph API only: partition of the input wiring, every subgraph one connected pull-prefix/push-suffix pipeline in one loop, cross-subgraph edge => exactly one handoff, delayed input <=> marked handoff (Tick->Loop inside nested loops), order lists every subgraph once and runs producers (edges, reference producers, earlier access groups) first, loops contiguous and nested; as_code succeeds.".into();
             rep.assume("operator classes are represented by one operator each (the partitioner only looks at arity, colour, input_delaytype_fn, flo_type, references, loop context)");
             rep.assume("input_delaytype_fn of the operator table is the specification of which inputs are delayed");
+            rep.assume("a subgraph's node list is in dataflow order (as_code emits pull operators in list order and push operators in reverse list order)");
+            rep.assume("only the direction 'edge crosses subgraphs => exactly one handoff' is demanded (the statement's wording); a non-delayed handoff inside one subgraph is caught by the strict producer-before-consumer order instead");
             rep.assume("pull/push colour forced by arity: >1 inputs => pull, >1 outputs => push, source => pull, sink => push; resolve_futures_blocking => push");
             program_family(&mut rep, &viols, &machinery);
         }
